@@ -130,9 +130,9 @@ func idSpace(full bool) engine.Space {
 		idNamed = append(idNamed, idNamedMore...)
 	}
 	return engine.Space{
-		engine.D("caller", idCallers...),  // registered method of cl and the credential it presents
+		engine.D("caller", idCallers...),   // registered method of cl and the credential it presents
 		engine.D("agrants", "all", "none"), // grant types registered for cl
-		engine.D("named", idNamed...),     // the contradictory client_id form parameter
+		engine.D("named", idNamed...),      // the contradictory client_id form parameter
 		engine.D("owner", "caller", "named"),
 		engine.D("idchan", idChans...),
 		engine.D("op", idOps...),
@@ -191,7 +191,9 @@ func (c idCase) pres() string {
 }
 
 // ownForm: the presentation itself carries a client_id form parameter
-func (c idCase) ownForm() bool { return c.caller == "post" || c.caller == "pub" || c.caller == "post-wrong" }
+func (c idCase) ownForm() bool {
+	return c.caller == "post" || c.caller == "pub" || c.caller == "post-wrong"
+}
 
 func (c idCase) app() string {
 	native := c.method() == "none"
